@@ -30,7 +30,7 @@ CONSTANTS
   TrafficChunk,   \* 64    entries per MESSAGE_TRAFFIC sub-message
   MaxActive,      \* 256   slots in ACTIVE_CLIENTS
   TimingOn,       \* BOOLEAN  manager started with send_msg_timing
-  Modes           \* subset of {"inline","deferred"}: when failure notices are published
+  Modes           \* subset of {"inline","deferred","detach"}: when failure notices are published
 
 (* protocol constants (core_defs.yaml) *)
 ALL          == 2147483647
@@ -107,6 +107,13 @@ Deliver(H, m, h) ==
 InfoPay(r) == [k |-> "ci", id |-> r.id, logger |-> B2I(r.logger), uniq |-> B2I(r.uniq),
                name |-> r.name, pid |-> r.pid, uid |-> r.uid]
 
+(* notice discipline "detach": like "deferred", but every module whose write failed in this delivery is taken out of
+   the subscription index BEFORE the first notice is published, so no notice about one of them is offered to another
+   (C07: "stops treating it as a recipient at once").  Admitted next to "inline" and "deferred" (open choice 2.9).      *)
+Detached(H, pend) ==
+  LET D == {pend[i][2] : i \in {j \in DOMAIN pend : pend[j][1] = "dead"}} \cap Live(H)
+  IN [H EXCEPT !.mods = [m \in DOMAIN @ |-> IF m \in D THEN [@[m] EXCEPT !.subs = {}] ELSE @[m]]]
+
 RECURSIVE FwdAll(_, _), FwdSeq(_, _, _, _), Post(_, _, _), RemoveMod(_, _), Notify(_, _, _), Attempt(_, _, _)
 
 (* forward_message *)
@@ -119,7 +126,7 @@ FwdAll(H0, h) ==
           ELSE UNION {FwdSeq(H, h, p, <<>>) : p \in SetToSeqs(R)}
 
 FwdSeq(H, h, p, pend) ==
-  IF Len(p) = 0 THEN Post(H, h, pend)
+  IF Len(p) = 0 THEN Post(IF H.mode = "detach" THEN Detached(H, pend) ELSE H, h, pend)
   ELSE LET m == Head(p)  rest == Tail(p) IN
     IF m \notin Live(H) THEN FwdSeq(H, h, rest, pend)                       \* removed meanwhile
     ELSE LET mid == H.mods[m].id IN
@@ -164,7 +171,7 @@ Notify(H, mid, h) ==
 (* send_to_loggers: same notice timing as forward_message *)
 RECURSIVE LogSeq(_, _, _, _)
 LogSeq(H, h, p, pend) ==
-  IF Len(p) = 0 THEN Post(H, h, pend)
+  IF Len(p) = 0 THEN Post(IF H.mode = "detach" THEN Detached(H, pend) ELSE H, h, pend)
   ELSE LET m == Head(p)  rest == Tail(p) IN
     IF m \notin Live(H) THEN LogSeq(H, h, rest, pend)
     ELSE IF m \in H.dead
